@@ -233,7 +233,7 @@ class Shapes:
         while i < n:
             e = its[i]
             k = e[0]
-            if k in ('CFG', 'SET', 'MUTCALL', 'UNWRAP_OR'):
+            if k in ('CFG', 'SET', 'MUTCALL', 'UNWRAP_OR', 'OWN', 'ALLOC', 'SINKW'):
                 i += 1
                 continue
             if k == 'PANIC':
@@ -394,7 +394,10 @@ class Shapes:
             live = [(d, x) for d, x in bodies if not _only_panic_or_err(x)]
             if len(live) == 1:
                 return self.term_shape(live[0][1], env, depth, impl)
-            return ('alt', [(str(d), self.term_shape(x, env, depth, impl)) for d, x in bodies])
+            shp = [(str(d), self.term_shape(x, env, depth, impl)) for d, x in bodies]
+            if all(w == ('eps',) for _, w in shp):
+                return ('eps',)
+            return ('alt', shp)
         for d, x in e[2]:
             lab = d[1] if isinstance(d, tuple) and d[0] == 'pat' else sym.dstr(d)
             arms.append((lab, self.term_shape(x, env, depth, impl)))
@@ -404,7 +407,7 @@ class Shapes:
 
 
 def _is_self_forward(t):
-    its = [e for e in items(t) if e[0] not in ('CFG',)]
+    its = [e for e in items(t) if e[0] not in ('CFG', 'ALLOC', 'OWN', 'SINKW')]
     return len(its) == 1 and its[0][0] == 'enc' and strip(its[0][2]) == ('self',)
 
 
